@@ -1,3 +1,278 @@
-import OrixModel.XMap
+import OrixProofs.Lemmas.XMapSel
+import OrixProofs.Lemmas.XMapCoord
+/-
+C11 — crystal-map selections compose like intersections; per-point data stays aligned.
+
+Model: `OrixModel/XMap.lean` (`getItem` mirrors `CrystalMap.__getitem__` on the mask `is_in_data`).
+Specification: a map *is* the ascending list `S` of its original point ids; `specSelect b S key` filters `S`.
+All statements hold for every grid, every mask, every key and every finite history (no bounds).
+Only property theorems and non-vacuity examples live in this file.
+-/
 namespace Orix.C11
+open Orix Orix.XMap
+
+/-- **Refinement.** Indexing a map with any key gives exactly the points the set-semantics
+specification selects from the ids of that map — including the cases where the code raises. -/
+theorem refinement (b : Base) (m : Mask) (k : Key) :
+    (getItem b m k).map (ids b.grid.size) = specSelect b (ids b.grid.size m) k := by
+  cases k with
+  | idx ks => exact getIdx_refines b m ks
+  | mask key => exact getMask_refines b m key
+  | names ks =>
+    simp only [getItem, specSelect, Except.map]
+    congr 1
+    exact getNames_refines b m ks
+
+/-- **Refinement of whole histories** (induction over the key list): a chain of selections, each applied to
+the result of the previous one, yields the ids the specification computes by filtering step by step. -/
+theorem history (b : Base) (m : Mask) (ks : List Key) :
+    (run b m ks).map (ids b.grid.size) = specRun b (ids b.grid.size m) ks := by
+  induction ks generalizing m with
+  | nil => rfl
+  | cons k ks ih =>
+    have hr := refinement b m k
+    unfold run specRun
+    cases hg : getItem b m k with
+    | error e =>
+      rw [hg] at hr
+      simp only [Except.map] at hr
+      simp only [← hr, Except.map]
+    | ok m' =>
+      rw [hg] at hr
+      simp only [Except.map] at hr
+      simp only [← hr]
+      exact ih m'
+
+/-- The specification only ever filters: the selected points are a sub-list (same order) of the map
+being indexed. -/
+theorem select_subset (b : Base) (S T : List Nat) (k : Key) (h : specSelect b S k = .ok T) :
+    T.Sublist S := by
+  cases k with
+  | idx ks =>
+    simp only [specSelect] at h
+    cases hds : dataSlices b.grid S with
+    | error e => simp [hds] at h
+    | ok ext =>
+      cases hpk : pickAll ks ext with
+      | error e => simp [hds, hpk] at h
+      | ok picks =>
+        simp only [hds, hpk, Except.ok.injEq] at h
+        subst h
+        exact List.filter_sublist
+  | mask key =>
+    simp only [specSelect] at h
+    by_cases hlen : key.length = S.length
+    · simp only [hlen, if_true, Except.ok.injEq] at h
+      subst h
+      exact selPos_sublist S key
+    · simp only [hlen, if_false] at h
+      match key, h with
+      | [v], h =>
+        simp only [Except.ok.injEq] at h
+        subst h
+        cases v <;> simp
+  | names ks =>
+    simp only [specSelect, Except.ok.injEq] at h
+    subst h
+    exact List.filter_sublist
+
+/-- **Never a point absent from the map being indexed** (code-shaped model): every point of the result of
+`__getitem__` is a point of the map that was indexed. -/
+theorem getItem_subset (b : Base) (m m' : Mask) (k : Key) (h : getItem b m k = .ok m') :
+    (ids b.grid.size m').Sublist (ids b.grid.size m) := by
+  have hr := refinement b m k
+  rw [h] at hr
+  exact select_subset b _ _ k hr.symm
+
+/-- … and the same along any history: the final map is contained in every intermediate one, in particular
+in the source map. -/
+theorem history_subset (b : Base) (m m' : Mask) (ks : List Key) (h : run b m ks = .ok m') :
+    (ids b.grid.size m').Sublist (ids b.grid.size m) := by
+  induction ks generalizing m with
+  | nil => simp only [run, Except.ok.injEq] at h; subst h; exact List.Sublist.refl _
+  | cons k ks ih =>
+    unfold run at h
+    cases hg : getItem b m k with
+    | error e => simp [hg] at h
+    | ok m1 =>
+      simp only [hg] at h
+      exact (ih m1 h).trans (getItem_subset b m m1 k hg)
+
+/-- Selections compose like intersections: a point is in the result of a history exactly when the
+specification keeps it at every step; in particular (two boolean masks) the second mask is applied to the
+points the first one kept. -/
+theorem mask_mask_compose (b : Base) (S : List Nat) (k1 k2 : List Bool) (h1 : k1.length = S.length)
+    (h2 : k2.length = (selPos S k1).length) :
+    specRun b S [.mask k1, .mask k2] = .ok (selPos (selPos S k1) k2) := by
+  simp [specRun, specSelect, h1, h2, selPos]
+
+/-- **Alignment.** Every per-point accessor of a map is the original full-size array read at the ids of
+the map, position by position (`array[is_in_data]`): phase ids, properties, coordinates, rotations
+(represented by their original point id) alike. -/
+theorem aligned {β : Type} (n : Nat) (m : Mask) (arr : Nat → β) :
+    maskFilter n m arr = (ids n m).map arr := maskFilter_eq n m arr
+
+theorem aligned_get {β : Type} (n : Nat) (m : Mask) (arr : Nat → β) (j : Nat) (hj : j < (ids n m).length) :
+    (maskFilter n m arr)[j]? = some (arr ((ids n m)[j])) := by
+  rw [maskFilter_eq]; simp [hj]
+
+/-- … in particular `x` and `y` (when they exist) are the coordinates of the original points. -/
+theorem aligned_xy {α : Type} [Coord α] (q : Geom α) (g : Grid) (m : Mask) :
+    (∀ l, xs q g m = some l → l = (ids g.size m).map (xOf q g)) ∧
+    (∀ l, ys q g m = some l → l = (ids g.size m).map (yOf q g)) := by
+  constructor
+  · intro l h
+    unfold xs at h
+    by_cases hx : g.nx > 1
+    · simp only [hx, if_true, Option.some.injEq] at h; rw [← h, maskFilter_eq]
+    · simp [hx] at h
+  · intro l h
+    unfold ys at h
+    by_cases hy : g.ny > 1
+    · simp only [hy, if_true, Option.some.injEq] at h; rw [← h, maskFilter_eq]
+    · simp [hy] at h
+
+/-- `row` is the original row of each point minus the smallest row in the data (likewise `col`). -/
+theorem rows_spec (g : Grid) (m : Mask) (rs : List Nat) (h : rows g m = .ok rs) :
+    ∃ lo, (∃ p ∈ ids g.size m, p / g.nx = lo) ∧ (∀ p ∈ ids g.size m, lo ≤ p / g.nx) ∧
+      rs = (ids g.size m).map fun p => p / g.nx - lo := by
+  unfold rows at h
+  by_cases hax : g.axes.isEmpty = true
+  · simp [hax] at h
+  · simp only [hax, Bool.false_eq_true, if_false] at h
+    cases hmin : minOf ((ids g.size m).map (· / g.nx)) with
+    | none => simp [hmin] at h
+    | some lo =>
+      simp only [hmin, Except.ok.injEq] at h
+      obtain ⟨hm1, hm2⟩ := minOf_spec hmin
+      obtain ⟨p, hp, he⟩ := List.mem_map.1 hm1
+      refine ⟨lo, ⟨p, hp, he⟩, fun p hp => hm2 _ (List.mem_map_of_mem hp), ?_⟩
+      rw [← h, List.map_map]; rfl
+
+theorem cols_spec (g : Grid) (m : Mask) (cs : List Nat) (h : cols g m = .ok cs) :
+    ∃ lo, (∃ p ∈ ids g.size m, p % g.nx = lo) ∧ (∀ p ∈ ids g.size m, lo ≤ p % g.nx) ∧
+      cs = (ids g.size m).map fun p => p % g.nx - lo := by
+  unfold cols at h
+  by_cases hax : g.axes.isEmpty = true
+  · simp [hax] at h
+  · simp only [hax, Bool.false_eq_true, if_false] at h
+    cases hmin : minOf ((ids g.size m).map (· % g.nx)) with
+    | none => simp [hmin] at h
+    | some lo =>
+      simp only [hmin, Except.ok.injEq] at h
+      obtain ⟨hm1, hm2⟩ := minOf_spec hmin
+      obtain ⟨p, hp, he⟩ := List.mem_map.1 hm1
+      refine ⟨lo, ⟨p, hp, he⟩, fun p hp => hm2 _ (List.mem_map_of_mem hp), ?_⟩
+      rw [← h, List.map_map]; rfl
+
+/-- **The shape is the bounding box.** On every existing axis the extent `[lo, hi)` used for `shape`,
+for slicing and for `get_map_data` contains all points of the data and is attained at both ends. -/
+theorem shape_is_bbox (g : Grid) (I : List Nat) (ext : List (Nat × Nat)) (h : dataSlices g I = .ok ext) :
+    List.Forall₂ (fun (a : Axis) (e : Nat × Nat) =>
+      (∀ p ∈ I, e.1 ≤ a.coord p ∧ a.coord p < e.2) ∧ (∃ p ∈ I, a.coord p = e.1) ∧
+        (∃ p ∈ I, a.coord p + 1 = e.2)) g.axes ext ∧
+    shape g I = .ok (ext.map fun e => e.2 - e.1) := by
+  constructor
+  · exact (mapM_ok h).imp fun {a e} hae => extent_ok (lo := e.1) (hi := e.2) hae
+  · simp [shape, h, Except.map]
+
+/-- the shape is undefined exactly for the empty map (on grids that have an axis) -/
+theorem shape_error_iff_empty (g : Grid) (I : List Nat) (hax : g.axes ≠ []) :
+    (∃ e, dataSlices g I = .error e) ↔ I = [] := by
+  constructor
+  · rintro ⟨e, h⟩
+    by_contra hne
+    have : ∀ axes : List Axis, ∃ r, axes.mapM (fun a => extent a I) = .ok r := by
+      intro axes
+      induction axes with
+      | nil => exact ⟨[], rfl⟩
+      | cons a axes ih =>
+        obtain ⟨r, hr⟩ := ih
+        obtain ⟨x, hx⟩ := extent_isOk_of_ne_nil (a := a) hne
+        exact ⟨x :: r, by rw [List.mapM_cons, hx, hr]; rfl⟩
+    obtain ⟨r, hr⟩ := this g.axes
+    unfold dataSlices at h
+    rw [hr] at h
+    cases h
+  · rintro rfl
+    cases hg : g.axes with
+    | nil => exact absurd hg hax
+    | cons a axes =>
+      refine ⟨.emptyReduction, ?_⟩
+      simp [dataSlices, hg, List.mapM_cons, extent, minOf, maxOf, bind, Except.bind]
+
+/-- **Placement.** `get_map_data` returns one value per position of the bounding box, row-major; the
+position `(i, j)` holds the value of the original point `(y0 + i, x0 + j)` if that point is in the data
+and the fill value (`none`) otherwise. -/
+theorem mapData_placement {β : Type} (g : Grid) (m : Mask) (arr : Nat → β) (out : List (Option β))
+    (h : mapData g m arr = .ok out) :
+    ∃ y0 y1 x0 x1, spanY g (ids g.size m) = .ok (y0, y1) ∧ spanX g (ids g.size m) = .ok (x0, x1) ∧
+      out.length = (y1 - y0) * (x1 - x0) ∧
+      ∀ i j, i < y1 - y0 → j < x1 - x0 →
+        out[i * (x1 - x0) + j]? =
+          some (if m ((y0 + i) * g.nx + (x0 + j)) then some (arr ((y0 + i) * g.nx + (x0 + j))) else none) :=
+  mapData_spec h
+
+/-- … so every point of the data finds its own value at its (row, col) relative to the bounding box. -/
+theorem mapData_value_at_row_col {β : Type} (g : Grid) (m : Mask) (arr : Nat → β) (out : List (Option β))
+    (h : mapData g m arr = .ok out) (hnx : 1 ≤ g.nx) (p : Nat) (hp : p ∈ ids g.size m) :
+    ∃ y0 y1 x0 x1, spanY g (ids g.size m) = .ok (y0, y1) ∧ spanX g (ids g.size m) = .ok (x0, x1) ∧
+      out[(p / g.nx - y0) * (x1 - x0) + (p % g.nx - x0)]? = some (some (arr p)) :=
+  mapData_at_point h hnx hp
+
+/-- **Origin and step invariance.** Over exact arithmetic (any origin `oy, ox`, any positive steps
+`dy, dx` in ℝ) the extents the code computes from coordinates — `round((c - origin)/step)` with the origin
+and step recovered from the coordinate arrays themselves — are the index-level extents, for every set of
+points of the grid … -/
+theorem origin_step_invariance_slices (q : Geom ℝ) (g : Grid) (I : List Nat) (hdy : 0 < q.dy) (hdx : 0 < q.dx)
+    (hny : 1 ≤ g.ny) (hnx : 1 ≤ g.nx) :
+    dataSlicesCN q g I = dataSlices g I :=
+  dataSlicesCN_eq q g I hdy hdx hny hnx
+
+/-- … hence `__getitem__` computed from coordinates is `__getitem__` computed from indices: the result of
+any selection does not depend on the origin or on the step sizes. -/
+theorem origin_step_invariance (q : Geom ℝ) (b : Base) (m : Mask) (k : Key) (hdy : 0 < q.dy) (hdx : 0 < q.dx)
+    (hny : 1 ≤ b.grid.ny) (hnx : 1 ≤ b.grid.nx) :
+    getItemC q b m k = getItem b m k := by
+  cases k with
+  | idx ks =>
+    simp only [getItemC, getItem, getIdx, getIdxWith]
+    rw [dataSlicesCN_eq q b.grid _ hdy hdx hny hnx]
+  | mask key => rfl
+  | names ks => rfl
+
+/-! ### the defect repaired by `fix:` commit 20c9772, pinned: assigning the slice mask instead of
+and-ing it resurrects masked-out points -/
+
+/-- `new[data_slices] = new_is_in_data_slice` (the code before the repair) -/
+def getIdxOld (g : Grid) (m : Mask) (ks : List Ix) : Except XErr Mask :=
+  match dataSlices g (ids g.size m) with
+  | .error e => .error e
+  | .ok ext =>
+    match pickAll ks ext with
+    | .error e => .error e
+    | .ok picks =>
+      let sel : List AxisSel := g.axes.zip (ext.zip picks)
+      .ok fun p => if inBox sel p then inPicks sel p else m p
+
+/-- proved counter-example: on a 1×4 map with point 1 masked out, `[0:3]` brings point 1 back -/
+theorem old_getitem_resurrects :
+    (getIdxOld ⟨1, 4⟩ (fun p => p != 1) [.slice (some 0) (some 3) none]).map (ids 4) = .ok [0, 1, 2] ∧
+    (getIdx ⟨1, 4⟩ (fun p => p != 1) [.slice (some 0) (some 3) none]).map (ids 4) = .ok [0, 2] := by
+  constructor <;> decide
+
+/-! ### non-vacuity: the hypotheses are met and the statements say something on concrete maps -/
+
+example : (getItem ⟨⟨3, 4⟩, fun _ => 0, []⟩ (fun p => p != 5 && p != 6)
+    (.idx [.slice (some 1) (some 3) none, .slice (some 1) (some 3) none])).map (ids 12) = .ok [9, 10] := by
+  decide
+example : specRun ⟨⟨3, 4⟩, fun _ => 0, []⟩ (List.range 12)
+    [.mask [true, true, true, true, true, false, false, true, true, true, true, true],
+     .idx [.slice (some 1) (some 3) none, .slice (some 1) (some 3) none]] = .ok [9, 10] := by
+  decide
+example : shape ⟨3, 4⟩ [9, 10] = .ok [1, 2] := by decide
+example : mapData ⟨3, 4⟩ (fun p => p == 4 || p == 9) (fun p => p) = .ok [some 4, none, none, some 9] := by
+  decide
+example : dataSlices ⟨1, 1⟩ [0] = .ok [] := by decide
+
 end Orix.C11
